@@ -71,6 +71,7 @@ impl Prop for C02 {
             ops,
             stream: None,
             config: desc,
+            hidden_faults: take_hidden_faults(),
         }
     }
 
@@ -212,9 +213,7 @@ impl Prop for C02 {
             },
         );
         if let Some(st) = st_ref.borrow_mut().as_deref_mut() {
-            for a in abs_ref.borrow().iter() {
-                st.histories.insert(a.history_hash());
-            }
+            st.histories.insert(combined_history(&abs_ref.borrow()));
         }
         result
     }
